@@ -7,7 +7,7 @@
 From Coq Require Import ZArith QArith Qabs Qcanon List Lia Reals.
 From Coquelicot Require Import Coquelicot.
 From DV Require Import Base.Field Base.FieldFacts Base.LinAlg Base.QcInst Model.Sampler Model.SamplerQc Model.Flow Model.FlowHull Model.FlowQc
-  Gen.FlowAlg Proofs.C11Interp Proofs.C11Compose Proofs.C11Compose3 Proofs.C11Expv Proofs.C11Hull Proofs.C11Gen Base.RInst Proofs.C11Limit Proofs.C11LimitModel Proofs.C11LimitAffine.
+  Gen.FlowAlg Proofs.C11Interp Proofs.C11Compose Proofs.C11Compose3 Proofs.C11Expv Proofs.C11Hull Proofs.C11Gen Base.RInst Proofs.C11Limit Proofs.C11LimitModel Proofs.C11LimitAffine Proofs.C11LimitDiagonalizable.
 Import ListNotations.
 
 Section Statements.
@@ -230,6 +230,27 @@ Qed.
 Print Assumptions C11_convergence_scaling_translation_2d.
 Print Assumptions C11_convergence_scaling_translation_3d.
 Print Assumptions C11_limit_is_time_one_flow.
+
+(* 7c. generators with OFF-DIAGONAL entries, 2-D, diagonalisable over the reals: G = P diag(gx, gy) P^-1, det P <> 0 (every
+       symmetric generator, every generator with two distinct real eigenvalues).  For every k the closed form is
+       P diag((1+gx/2^k)^(2^k), (1+gy/2^k)^(2^k)) P^-1, and every entry converges to that of P diag(e^gx, e^gy) P^-1 = exp G.
+       Still PARTIAL: generators with complex eigenvalues (rotational part) or defective ones, and 3-D non-diagonal generators. *)
+Theorem C11_convergence_diagonalisable_2d :
+  forall p q r s gx gy : R, p * s - q * r <> 0 ->
+  let A := fun k : nat => hpow (K:=RF) 2 (hone_plus (K:=RF) 2 (/ 2 ^ k) (conj_diag p q r s gx gy)) (2 ^ k) in
+  let E := conj_diag p q r s (exp gx) (exp gy) in
+  (forall k, A k = conj_diag p q r s ((1 + gx / 2 ^ k) ^ (2 ^ k)) ((1 + gy / 2 ^ k) ^ (2 ^ k))) /\
+  (forall i j, (i < 2)%nat -> (j < 3)%nat -> is_lim_seq (fun k => hentry (A k) i j) (hentry E i j)).
+Proof. exact closed_form_converges_diagonalisable2. Qed.
+Theorem C11_conj_diag_is_conjugation :
+  forall p q r s a b : R, p * s - q * r <> 0 ->
+  hcomp (K:=RF) 2 (conj_diag p q r s a b) (H2 (K:=RF) p q 0 r s 0)
+  = hcomp (K:=RF) 2 (H2 (K:=RF) p q 0 r s 0) (H2 (K:=RF) a 0 0 0 b 0).
+Proof. exact conj_diag_is_conjugation. Qed.
+Example C11_conj_diag_covers_symmetric : conj_diag 1 1 1 (-1) 1 (-1) = H2 (K:=RF) 0 1 0 1 0 0.
+Proof. exact conj_diag_symmetric. Qed.
+Print Assumptions C11_convergence_diagonalisable_2d.
+Print Assumptions C11_conj_diag_is_conjugation.
 Local Open Scope Q_scope.
 
 (* non-vacuity: a concrete generator on a 3 x 2 lattice (align_corners = false) that satisfies the hull predicate, is
